@@ -133,7 +133,7 @@ example :
 /-- **The table `Timer.__str__` prints** (documented behaviour; the tree as it is raises
     `TypeError` while any timer runs — finding `timer-str-running`): after any history on any
     configuration with a non-decreasing clock the rows are those of the existing labels, each
-    once per key, in sorted order; `Accum.` + `Current` is the ideal stop-watch's total, `Current`
+    exactly once, in sorted order; `Accum.` + `Current` is the ideal stop-watch's total, `Current`
     is the ideal stop-watch's `total=False` reading and reads `Stopped` iff the label's last event
     is not a `start`. -/
 theorem C15_timer_str {L : Type} [DecidableEq L] (lt : L → L → Bool)
@@ -142,7 +142,7 @@ theorem C15_timer_str {L : Type} [DecidableEq L] (lt : L → L → Bool)
     (c : Cfg L) (h : List (Call L)) (now : Nat) (hm : Monotone h now) :
     let rows := ((Timer.init c.init c.dflt c.all).run h).strRows lt now
     (∀ l, l ∈ rows.map (·.label) ↔ known c h l = true) ∧
-      rows.length = ((Timer.init c.init c.dflt c.all).run h).store.keys.length ∧
+      (rows.map (·.label)).Nodup ∧
       SortedBy lt (rows.map (·.label)) ∧
       ∀ r ∈ rows,
         r.accum + r.current.getD 0 = specTotal (labelHistory c h r.label) now ∧
@@ -150,9 +150,7 @@ theorem C15_timer_str {L : Type} [DecidableEq L] (lt : L → L → Bool)
         r.current.getD 0 = specCurrent (labelHistory c h r.label) now := by
   intro rows
   refine ⟨fun l => strRows_complete lt c h now l, ?_, ?_, ?_⟩
-  · have := congrArg List.length (strRows_labels lt ((Timer.init c.init c.dflt c.all).run h) now)
-    rw [List.length_map, length_sortLabels] at this
-    exact this
+  · exact strRows_nodup lt c h now
   · show SortedBy lt ((((Timer.init c.init c.dflt c.all).run h).strRows lt now).map (·.label))
     rw [strRows_labels]
     exact sorted_sortLabels lt htot htrans hirr _
